@@ -70,6 +70,8 @@ roots=[
  ('regression (seeded C04-m7): 12 properties with descriptions — order through the printed .proto text', root(desc=hx('wide')), [spec(n,'str',desc=hx('d '+n)) for n in ['fa','fb','fooBar','count','itemId','labels','status','kind','q','x2y','aB','a1']]),
  ('regression (seeded C04-m7): oneof root with 11 options', root(kind='oneof'), [spec(n,'int',fmt='i32') for n in ['fa','fb','fooBar','count','itemId','labels','status','kind','q','x2y','aB']]),
  ('regression (seeded C04-m7): enum with 12 described options', root(), [spec('fa','enum',eopts=','.join(hx(o) for o in ['ALPHA','BETA','GAMMA','DELTA','EPSILON','ZETA','ETA','THETA','IOTA','KAPPA','LAMBDA','MU']),eodesc=','.join(hx('d'+str(i)) for i in range(12)))]),
+ ('schema-diff:array:obj:flat:1->0 + schema-diff:map:obj:flat:1->0 (round-4 audit)', root(), [spec('fa','obj',arr='1',flat='1'), spec('fb','obj',arr='m',flat='1')]),
+ ('schema-diff:array:opt:1->0 + schema-diff:map:opt:1->0 (round-4 audit)', root(), [spec('fa','str',arr='1',opt='1'), spec('fb','str',arr='m',opt='1')]),
  ('regression: oneof root', root(kind='oneof',desc=hx('a oneof')), [spec('fa','obj',desc=hx('an option')), spec('fb','int',fmt='i32',r='1',min='3'), spec('fc','enum',eopts=hx('ALPHA'))]),
 ]
 which=sys.argv[1]
